@@ -35,3 +35,9 @@ package reference
 //@ contract reference.TraversalToLocalOrigin (traversal, cons, allowSelfRefs) (result, ok)
 //@   ensures [C10] implies(ok, result.Range == traversal.SourceRange() && result.Constraints == cons)
 //@   ensures [C10] implies(ok && !traversal.IsRelative() && traversal.RootName() == "self", allowSelfRefs)
+
+// ---- C08/C11: a typeless constraint is satisfied by typeless targets only, a typed constraint never by a
+// ---- typeless target (the same rule Target.Matches applies when the reference is resolved).
+//@ contract (reference.Target).IsConvertibleToType (ref, typ) (result)
+//@   ensures [C08,C11] implies(typ == cty.NilType, result == (ref.Type == cty.NilType))
+//@   ensures [C08,C11] implies(typ != cty.NilType && ref.Type == cty.NilType, !result)
